@@ -23,6 +23,8 @@ pub struct LuaDocParser<'a, 'b> {
     current_token_range: SourceRange,
     origin_token_index: usize,
     pub state: LuaDocParserState,
+    /// current recursion depth of the type grammar
+    pub(crate) type_depth: usize,
 }
 
 impl MarkerEventContainer for LuaDocParser<'_, '_> {
@@ -55,6 +57,7 @@ impl<'b> LuaDocParser<'_, 'b> {
             current_token_range: SourceRange::EMPTY,
             origin_token_index: 0,
             state: LuaDocParserState::Normal,
+            type_depth: 0,
         };
 
         parser.init();
